@@ -34,6 +34,14 @@ def number(c, r):
             "nan": float("nan"), "list": [1], "bool": True, "intfloat": r.choice([1.0, 2.0, 1e3])}[c]
 
 
+def _unusual(r):
+    from . import metadata
+    d = metadata.unusual_roles(r, KA, n=r.choice([2, 4, 8]))
+    if r.random() < 0.5:
+        d["key_mgr.json"] = {"pubkeys": [KA], "threshold": 1}       # next to "key_mgr": two roles, two names
+    return d
+
+
 def delegations(c, r):
     good2 = {"root": {"pubkeys": [KA, KB], "threshold": 2}, "key_mgr": {"pubkeys": [KB], "threshold": 1}}
     one = lambda **kw: {"root": {"pubkeys": [KA], "threshold": 1, **kw}}   # noqa: E731
@@ -42,6 +50,7 @@ def delegations(c, r):
     table = {
         "empty": {}, "one_ok": one(), "two_ok": good2, "thr_gt_keys": thr(5), "emptykeys": {"root": {"pubkeys": [], "threshold": 1}},
         "thr_huge": thr(2 ** 70),
+        "roles_unusual": {**good2, **_unusual(r)},
         "not_dict": r.choice([[], "x", 5, [good2]]), "null": None,
         "entry_not_dict": {"root": r.choice([[KA], "x", None, 1])}, "entry_missing_thr": {"root": {"pubkeys": [KA]}},
         "entry_missing_keys": {"root": {"threshold": 1}}, "entry_extra": one(extra=r.choice([1, None, "x"])),
